@@ -52,6 +52,8 @@ type c07Oracle struct {
 	prevOverwrite bool
 	overwrite  bool
 	steps      int
+	wurzMorning int
+	akfMorning  int
 }
 
 // inputWindow: may organic matter or fertiliser enter the pools on this day?
@@ -149,7 +151,24 @@ func (o *c07Oracle) Probe(pt string, zeit, subd int, wdt float64, g *G, w *herme
 		o.prevOverwrite = o.overwrite
 	case "evatra":
 		o.aufna0, o.nfix0 = g.AUFNASUM, g.NFIXSUM
+	case "water.pre":
+		if subd == 1 {
+			o.wurzMorning, o.akfMorning = g.WURZ, g.AKF.Index // rooting depth and rotation entry before today's crop step
+		}
 	case "nitro.pre":
+		// what the N routine is about to book as crop uptake comes from the layers the crop can reach today: the rooted
+		// layers above the groundwater table (the larger of the rooting depths before and after today's crop step)
+		// (not in the later sub-steps of a harvest day: the harvest in the first sub-step clears the rooting depth while the
+		// day's uptake, assigned before it, is still being booked)
+		if reach := int(math.Min(float64(max(o.wurzMorning, g.WURZ)), g.GRW)); reach >= 0 && g.AKF.Index == o.akfMorning {
+			for z := reach; z < g.N; z++ {
+				if g.PE[z] != 0 {
+					o.violate("crop-credit", "n-uptake-booked-from-a-layer-the-crop-does-not-reach", zeit,
+						fmt.Sprintf("sub-step %d: %.9g kg N/ha is about to be booked as crop uptake from layer %d, rooting depth %d layers, groundwater table at %.4g dm", subd, g.PE[z], z+1, max(o.wurzMorning, g.WURZ), g.GRW), nil)
+					break
+				}
+			}
+		}
 		o.pre = takeOrg(g)
 		o.prePESUM, o.preAUFNA, o.preNFIX = g.PESUM, g.AUFNASUM, g.NFIXSUM
 		if subd == 1 && zeit == g.ERNTE[g.AKF.Index] {
